@@ -25,11 +25,19 @@ package props
 //                Z<j>=<exons>         ex := t.Exons(); _, err := ex[:min(j,cap(ex))].Add(exons...)   (Z = Z0: the
 //                                     reset idiom t.Exons()[:0].Add(…), an empty receiver whose spare
 //                                     capacity is the transcript's live exon array)
-//   ch <nodes> <loop> <query>*        a feature chain, bottom-up; kinds o x G C and
+//                O<k>=<o>             the orientation of feature k of the chain becomes o (-1|0|1): k = 0 is the
+//                                     transcript itself (t.Orient = o), k >= 1 the k-th node of <locchain>
+//                                     (Gene.Orient, a custom Orienter's orientation; not for kinds x and C)
+//                M<k>=<s>             the start of feature k of the chain becomes s (t.Offset, Gene.Offset, …; not C)
+//                                     after every operation, O and M included, the transcript is observed as
+//                                     it is now: the UTRs must follow the *current* product of orientations
+//   ch <nodes> <loop> <step>*         a feature chain, bottom-up; kinds o x G C and
 //                                     E (gene.Exon) I (gene.Intron) F (*gene.TranscriptFeature)
 //                                     T (*gene.CodingTranscript) N (*gene.NonCodingTranscript);
 //                                     loop = `-` or k: the top node's location is node k
-//        query = i,j,k,p              i,j,k node indices, or n (nil) or f (a foreign feature)
+//        step  = i,j,k,p              a query: i,j,k node indices, or n (nil) or f (a foreign feature)
+//                O<k>=<o> | M<k>=<s>  between two queries: node k (0-based) gets another orientation / start
+//                                     (pointer kinds only: o x G T N F; x has no orientation)
 //   cv <p>                            OneToZero / ZeroToOne and both compositions
 //   gf <off> <op>*                    history of Gene.SetFeatures; op = F=<feats>,
 //        feat  = loc:start:end:tag    loc 1 = the gene, 2 = another gene, 0 = nil
@@ -348,6 +356,62 @@ func c20SetLoc(f, loc feat.Feature) {
 	}
 }
 
+// c20SetOrient assigns the orientation of a feature of a chain, as a caller would between two queries.
+func c20SetOrient(f feat.Feature, o feat.Orientation) {
+	switch v := f.(type) {
+	case *c20Ori:
+		v.orient = o
+	case *gene.Gene:
+		v.Orient = o
+	case *gene.CodingTranscript:
+		v.Orient = o
+	case *gene.NonCodingTranscript:
+		v.Orient = o
+	case *gene.TranscriptFeature:
+		v.Orient = o
+	default:
+		panic("c20: orientation of a node that has none, or of a value-typed node")
+	}
+}
+
+// c20SetStart moves a feature of a chain.
+func c20SetStart(f feat.Feature, s int) {
+	switch v := f.(type) {
+	case *c20Ori:
+		v.start, v.end = s, s+100
+	case *c20Node:
+		v.start, v.end = s, s+100
+	case *gene.Gene:
+		v.Offset = s
+	case *gene.CodingTranscript:
+		v.Offset = s
+	case *gene.NonCodingTranscript:
+		v.Offset = s
+	case *gene.TranscriptFeature:
+		v.Offset = s
+	default:
+		panic("c20: start of a chromosome or of a value-typed node")
+	}
+}
+
+// c20ChainOp carries out `O<k>=<o>` / `M<k>=<s>` on chain[k] and reads the assigned value back.
+func c20ChainOp(op string, chain []feat.Feature) string {
+	eq := strings.IndexByte(op, '=')
+	k, val := hx.Atoi(op[1:eq]), hx.Atoi(op[eq+1:])
+	if k < 0 || k >= len(chain) {
+		panic("c20: chain op beyond the chain " + op)
+	}
+	if op[0] == 'O' {
+		if val < -1 || val > 1 {
+			panic("c20: bad orientation " + op)
+		}
+		c20SetOrient(chain[k], feat.Orientation(val))
+		return fmt.Sprintf("O %d", chain[k].(feat.Orienter).Orientation())
+	}
+	c20SetStart(chain[k], val)
+	return fmt.Sprintf("M %d", chain[k].Start())
+}
+
 func c20ExecCH(f []string) string {
 	nodes := c20ParseChain(f[1])
 	c20Build(nodes)
@@ -404,6 +468,14 @@ func c20ExecCH(f []string) string {
 	}
 	var obs []string
 	for _, q := range f[3:] {
+		if strings.IndexByte(q, '=') > 0 && (q[0] == 'O' || q[0] == 'M') {
+			chain := make([]feat.Feature, len(nodes))
+			for m, nd := range nodes {
+				chain[m] = nd.f
+			}
+			obs = append(obs, c20ChainOp(q, chain))
+			continue
+		}
 		p := strings.Split(q, ",")
 		if len(p) != 4 {
 			panic("c20: bad query " + q)
@@ -449,7 +521,8 @@ func c20Iv(f func() feat.Feature) string {
 func c20ExecTX(f []string) string {
 	hdr := strings.Split(f[2], ",")
 	off, ori, cdsS, cdsE := hx.Atoi(hdr[0]), c20Orient(hdr[1]), hx.Atoi(hdr[2]), hx.Atoi(hdr[3])
-	loc := c20Build(c20ParseChain(f[3]))
+	locNodes := c20ParseChain(f[3])
+	loc := c20Build(locNodes)
 	var t gene.Transcript
 	var ct *gene.CodingTranscript
 	if f[1] == "c" {
@@ -461,6 +534,10 @@ func c20ExecTX(f []string) string {
 	u := &gene.NonCodingTranscript{ID: "u", Loc: loc}
 	v := &gene.CodingTranscript{ID: "v"}
 	pool := []gene.Transcript{nil, t, u, v}
+	chain := []feat.Feature{t}
+	for _, nd := range locNodes {
+		chain = append(chain, nd.f)
+	}
 	var obs []string
 	for _, op := range f[4:] {
 		eq := strings.IndexByte(op, '=')
@@ -468,12 +545,17 @@ func c20ExecTX(f []string) string {
 			panic("c20: bad tx op " + op)
 		}
 		kind, arg := op[:1], op[eq+1:]
-		if kind != "Z" && eq != 1 {
+		if kind != "Z" && kind != "O" && kind != "M" && eq != 1 {
 			panic("c20: bad tx op " + op)
 		}
-		args := c20Real(c20ParseExons(arg), pool)
+		var args []gene.Exon
+		if kind != "O" && kind != "M" {
+			args = c20Real(c20ParseExons(arg), pool)
+		}
 		var err error
 		switch kind {
+		case "O", "M":
+			c20ChainOp(op, chain)
 		case "Z":
 			j := 0
 			if eq > 1 {
@@ -888,7 +970,44 @@ func c20GenCH(g *hx.Gen, deep bool) string {
 			sort.Ints(xs)
 			i, j, k = strconv.Itoa(xs[0]), strconv.Itoa(xs[1]), strconv.Itoa(xs[2])
 		}
-		toks = append(toks, fmt.Sprintf("%s,%s,%s,%d", i, j, k, g.Pick(0, 0, 1, 7, 100, -5)))
+		q := fmt.Sprintf("%s,%s,%s,%d", i, j, k, g.Pick(0, 0, 1, 7, 100, -5))
+		toks = append(toks, q)
+		// between two queries a node of the chain is moved or gets another orientation — mostly one
+		// above the queried feature — and the same query is asked again: the answers must follow
+		if g.Chance(0.3) {
+			lo := 0
+			if n, err := strconv.Atoi(i); err == nil && g.Chance(0.7) {
+				lo = n
+			}
+			for tries := 0; tries < 4; tries++ {
+				m := lo + g.Intn(depth-lo)
+				if deep && g.Chance(0.5) {
+					m = g.Pick(0, 1, 2, depth-3, depth-2, depth-1) % depth
+				}
+				p := strings.Split(nodes[m], ":")
+				kind := p[0][0]
+				if strings.IndexByte("oxGTNF", kind) < 0 {
+					continue
+				}
+				if kind != 'x' && g.Chance(0.5) {
+					o := g.Pick(-1, 0, 1)
+					if cur := hx.Atoi(p[2]); cur != 0 && g.Chance(0.6) {
+						o = -cur
+					}
+					p[2] = strconv.Itoa(o)
+					toks = append(toks, fmt.Sprintf("O%d=%d", m, o))
+				} else {
+					st := g.Pick(0, 1, 5, 10, 100, -3, 12345, 777)
+					p[1] = strconv.Itoa(st)
+					toks = append(toks, fmt.Sprintf("M%d=%d", m, st))
+				}
+				nodes[m] = strings.Join(p, ":")
+				if g.Chance(0.85) {
+					toks = append(toks, q)
+				}
+				break
+			}
+		}
 	}
 	return strings.Join(toks, " ")
 }
@@ -936,10 +1055,49 @@ func c20GenTX(g *hx.Gen) string {
 	case 2: // outside the transcript / inverted: the code does not validate CDS bounds
 		cdsS, cdsE = g.Range(-3, L+3), g.Range(-3, L+3)
 	}
-	hdr := fmt.Sprintf("%d,%d,%d,%d", g.Pick(0, 0, 20, 500), g.Pick(1, 1, 1, -1, -1, -1, 0), cdsS, cdsE)
-	toks := []string{"tx", kind, hdr, c20GenLocChain(g)}
+	tOri := g.Pick(1, 1, 1, -1, -1, -1, 0)
+	hdr := fmt.Sprintf("%d,%d,%d,%d", g.Pick(0, 0, 20, 500), tOri, cdsS, cdsE)
+	locChain := c20GenLocChain(g)
+	toks := []string{"tx", kind, hdr, locChain}
 	cur := []c20Exon{}
 	emit := func(op string, es []c20Exon) { toks = append(toks, op+"="+c20ShowExons(es)) }
+	// the chain as the generator follows it: level 0 is the transcript, level k the k-th node of the
+	// location chain; oris[k] is the current orientation of an Orienter at level k
+	oris := map[int]int{0: tOri}
+	var above []int // levels above the transcript whose orientation can be assigned
+	for k, nd := range c20ParseChain(locChain) {
+		if nd.kind == 'o' || nd.kind == 'G' {
+			oris[k+1] = hx.Atoi(nd.orient)
+			above = append(above, k+1)
+		}
+	}
+	// an orientation change between two operations, mostly above the transcript (Gene.Orient, a
+	// contig's orientation) and mostly a flip, at any nesting level, to any of the three values
+	emitO := func() {
+		k := 0
+		if len(above) > 0 && g.Chance(0.8) {
+			k = above[g.Intn(len(above))]
+		}
+		o := g.Pick(-1, 0, 1)
+		if oris[k] != 0 && g.Chance(0.65) {
+			o = -oris[k]
+		} else if oris[k] == 0 && g.Chance(0.7) {
+			o = g.Pick(-1, 1)
+		}
+		oris[k] = o
+		toks = append(toks, fmt.Sprintf("O%d=%d", k, o))
+	}
+	// the transcript (mostly) or one of its locations is moved
+	emitM := func() {
+		k := 0
+		if n := len(c20ParseChain(locChain)); n > 0 && g.Chance(0.3) {
+			k = 1 + g.Intn(n)
+			if strings.HasPrefix(strings.Split(locChain, ";")[k-1], "C:") {
+				k = 0
+			}
+		}
+		toks = append(toks, fmt.Sprintf("M%d=%d", k, g.Pick(0, 1, 7, 20, 500, 1000, -4)))
+	}
 	// Add on a re-slice of t.Exons(), result dropped: t.Exons()[:0] (the reset idiom) mostly, with
 	// argument lists that are accepted and rejected, that fit the capacity and exceed it
 	emitZ := func() {
@@ -968,6 +1126,9 @@ func c20GenTX(g *hx.Gen) string {
 			emit(fmt.Sprintf("Z%d", j), add)
 		}
 	}
+	if g.Chance(0.05) { // before the first query
+		emitO()
+	}
 	if g.Chance(0.1) { // before any SetExons: t.Exons() is nil
 		emitZ()
 	}
@@ -982,9 +1143,22 @@ func c20GenTX(g *hx.Gen) string {
 	if g.Chance(0.3) {
 		emitZ()
 	}
+	if len(toks) > 4 && g.Chance(0.3) { // right after the first query
+		emitO()
+		if g.Chance(0.3) {
+			emitO()
+		}
+	}
 	nops := g.Pick(0, 1, 1, 2, 3, 5)
 	for i := 0; i < nops; i++ {
-		switch g.Intn(11) {
+		switch g.Intn(15) {
+		case 11, 12, 13:
+			emitO()
+			if g.Chance(0.3) {
+				emitO()
+			}
+		case 14:
+			emitM()
 		case 8, 9, 10:
 			emitZ()
 			if g.Chance(0.3) {
